@@ -3,7 +3,8 @@
     XMLSchema10/11(strict) raises XMLSchemaModelError  <=>  not upa_ok(m, version)
 
 upa_ok is the independent Glushkov position-automaton decision of bounded/cm.py (XSD 1.1: an element particle competing with
-a wildcard is not a violation).  All leaves are untyped, so Element Declarations Consistent holds trivially in this scope.
+a wildcard is not a violation).  The leaves of these models are untyped; Element Declarations Consistent is decided on a separate family
+(x:T1, y, x:T2 in three nestings, every pair of types) for the models whose attribution is unambiguous.
 Deciding scope: cm.two_level_models() and cm.variant_models(), both classes; disagreements recorded on the unchanged tree
 are listed one by one in baseline/C15_instances.json (two root causes, see known_findings.json).
 """
@@ -45,13 +46,73 @@ def check(models, tier, seed, known, label, k, open_findings):
                   samples=[dict(model=cm.show(sel[0]), deterministic=cm.upa_ok(sel[0]))] if sel else [])
 
 
+# ---------------------------------------------------------------- Element Declarations Consistent
+def edc_models():
+    """three leaves x:T1, y, x:T2 in three nestings; K, K2 in {seq, cho}; occurrences in OCC[:4]; T1, T2 in {string, int}"""
+    import itertools
+    occ = cm.OCC[:4] + [(2, 2)]
+    for k in ('seq', 'cho'):
+        for o1, o2, o3 in itertools.product(occ, repeat=3):
+            yield ('flat', k, None, (o1, o2, o3), None)
+            for k2 in ('seq', 'cho'):
+                for o4 in occ[:4]:
+                    yield ('right', k, k2, (o1, o2, o3), o4); yield ('left', k, k2, (o1, o2, o3), o4)
+
+
+def edc_struct(shape, k, k2, occs, o4, order='xyx'):
+    x1, y, x2 = ('e', 'a', occs[0]), ('e', 'b', occs[1]), ('e', 'a', occs[2])
+    if shape == 'flat': return (k, [x1, y, x2], (1, 1))
+    if shape == 'right': return (k, [x1, (k2, [y, x2], o4)], (1, 1))
+    return (k, [(k2, [x1, y], o4), x2], (1, 1))
+
+
+def edc_text(m, t1, t2):
+    types = iter([t1, t2])
+    def occ(o): return ('' if o[0] == 1 else f' minOccurs="{o[0]}"') + ('' if o[1] == 1 else ' maxOccurs="%s"' % ('unbounded' if o[1] is None else o[1]))
+    def x(p):
+        if p[0] == 'e': return f'<xs:element name="{p[1]}"{occ(p[2])}%s/>' % (f' type="xs:{next(types)}"' if p[1] == 'a' else '')
+        return '<xs:%s%s>%s</xs:%s>' % ({'seq': 'sequence', 'cho': 'choice'}[p[0]], occ(p[2]), ''.join(x(c) for c in p[1]), {'seq': 'sequence', 'cho': 'choice'}[p[0]])
+    return f'<xs:schema {cm.XS}><xs:element name="r"><xs:complexType>{x(m)}</xs:complexType></xs:element></xs:schema>'
+
+
+def edc_eval(args):
+    spec, ver = args
+    import xmlschema
+    m = edc_struct(*spec)
+    if not cm.upa_ok(m, '1.0'): return None          # attribution itself is ambiguous: judged by the UPA checks above
+    out = {}
+    for t1, t2 in (('string', 'string'), ('int', 'int'), ('string', 'int'), ('int', 'string')):
+        try: _cls(ver)(edc_text(m, t1, t2)); out[t1, t2] = 'accepted'
+        except xmlschema.XMLSchemaModelError: out[t1, t2] = 'model-error'
+        except xmlschema.XMLSchemaException as e: out[t1, t2] = 'error:' + type(e).__name__
+    bad = []
+    if out['int', 'int'] != out['string', 'string']: bad.append(f"same-typed pair: string/string {out['string', 'string']} but int/int {out['int', 'int']}")
+    for k in (('string', 'int'), ('int', 'string')):
+        if out[k] != 'model-error': bad.append(f'{k[0]}/{k[1]}: {out[k]} (two same-named elements with different types)')
+    return dict(spec=spec, ver=ver, model=cm.show(m), bad=bad) if bad else False
+
+
+def check_edc(tier, seed):
+    sel, exhaustive = part(list(edc_models()), tier, seed, 3)
+    jobs = [(sp, ver) for sp in sel for ver in ('1.0', '1.1')]
+    res = pmap(edc_eval, jobs)
+    fails = [dict(case=dict(spec=r['spec'], version=r['ver']), model=r['model'], observed=r['bad'], required='same-named elements with different types in one content model: model error; the same model with equal types: same outcome whatever the type')
+             for r in res if r]
+    decided = sum(1 for r in res if r is not None)
+    return result('C15.element_declarations_consistent', f'{len(sel)} of {len(list(edc_models()))} three-leaf models (x:T1, y, x:T2; flat / left- / right-nested) x 4 type pairs x 2 schema classes', len(jobs) * 4, fails,
+                  exhaustive=exhaustive, samples=[dict(model=cm.show(edc_struct(*sel[0])))], distinct=decided, notes=f'{decided} (model, class) pairs have unambiguous attribution and are decided')
+
+
 def run(tier, seed, open_findings):
     known = load_instances('C15_instances.json')
     return [check(list(cm.two_level_models()), tier, seed, known, 'C15.two_level_models', 4, open_findings),
-            check(list(cm.variant_models()), tier, seed, known, 'C15.variant_models', 1, open_findings)]
+            check(list(cm.variant_models()), tier, seed, known, 'C15.variant_models', 1, open_findings), check_edc(tier, seed)]
 
 
 def replay(check_name, case):
+    if 'spec' in case:
+        sp = case['spec']; r = edc_eval(((sp[0], sp[1], sp[2], tuple(tuple(o) for o in sp[3]), tuple(sp[4]) if sp[4] else None), case['version']))
+        return dict(ok=not r, observed=r, required='different types: model error')
     if 'witness_model' in case: case = dict(model=case['witness_model'], version=case.get('version', '1.0'))
     name, ver, status = evaluate((_tuplify(case['model']), case['version']))
     return dict(ok=status is None, observed=dict(model=name, status=status), required='model error <=> not upa_ok(m)')
